@@ -36,8 +36,11 @@ CHECKS = {
     "C18": ("H histcheck", "exhaustive DFS over all operation histories up to a depth bound on the real structures (state = history), reference closure compared after every operation",
             "Every add-sequence over 4 elements to depth 6 (7 thorough) and over 5 elements to depth 4 (5) on the real TrRelUnionFind; every add/find/union sequence to depth 5 (6) on the real UnionFind incl. the unsafe id-based API; after each operation all public queries and the structures' own invariant checks are compared with a Warshall closure / partition.",
             "element domain 4-5, depth bound; hash iteration order is whatever FxHasher gives for u8 keys", "6 C18"),
-    "C19": ("H histcheck (+ S vsched for the concurrent part)", "exhaustive DFS over all operation histories on every real index type vs a reference multimap",
-            "All sequences of insert (both write traits, into new/delta/total), insert-if-absent, merge_delta_to_total_new_to_delta, move_index_contents (six directions), freeze/unfreeze to depth 5 (concurrent types 4; thorough 6) on RelIndexType1, ToRelIndexType, RelFullIndexType, LatticeIndexType, RelNoIndexType, CRelIndex, CRelFullIndex, CLatIndex, CRelNoIndex and the RelIndexCombined view, with keys in the same and in different dashmap shards; every read path compared with a reference multimap after every operation.",
+    "C20": ("S vsched", "exhaustive enumeration of pool configurations (one process each) x deviation-bounded exhaustive schedule exploration of the real parallel code",
+            "Programs: transitive closure, un-indexed scans (CRelNoIndex), lattice, initialised relation; pool current at construction in {global(2),1,2,3} x pool at run 1 x pool at run 2 in {1,2,3} (+ nested 2-in-3, thorough: a third run), facts added between runs, every execution with <= 2 (3) deviations; result must equal the serial program's. Plus three program values (two parallel of the same type, one serial) running concurrently on 3 workers.",
+            "pool sizes 1..3; the executor shim models rayon's contract (any idle worker may take a pending job), not its heuristics", "6 C20"),
+    "C19": ("H histcheck + S vsched", "exhaustive DFS over all operation histories on every real index type vs a reference multimap; every interleaving of 2-3 virtual threads writing one shared concurrent index",
+            "All sequences of insert (both write traits, into new/delta/total), insert-if-absent, merge_delta_to_total_new_to_delta, move_index_contents (six directions), freeze/unfreeze to depth 5 (concurrent types 4; thorough 6) on RelIndexType1, ToRelIndexType, RelFullIndexType, LatticeIndexType, RelNoIndexType, CRelIndex, CRelFullIndex, CLatIndex, CRelNoIndex and the RelIndexCombined view, with keys in the same and in different dashmap shards; every read path compared with a reference multimap after every operation. Concurrent part: every interleaving (vsched, dashmap lock shim) of 2 threads x 2 inserts / insert-if-absent calls and 3 threads x 1 insert on CRelIndex, CLatIndex, CRelFullIndex, CRelNoIndex with colliding keys, then freeze + all read paths: every insert retained, exactly one insert-if-absent winner per key.",
             "2 keys x 2 values; full indices use one value per key (which of two different values survives a merge is unspecified); reads on the wrong freeze state are expected panics and not in the alphabet", "6 C19"),
 }
 NOT_APPLICABLE = []
